@@ -98,8 +98,10 @@ func iterateShared(fn subscription.IterateFn, options subscription.IterationOpti
 	}
 	// 查询指定clientID下的所有topic
 	if options.ClientID != "" {
-		for _, v := range index[options.ClientID] {
-			for _, c := range v.shared {
+		// the index key of a shared subscription is "<shareName>/<topicFilter>"
+		for key, v := range index[options.ClientID] {
+			shareName, _ := splitSharedIndexKey(key)
+			if c := v.shared[shareName]; c != nil {
 				if sub, ok := c[options.ClientID]; ok {
 					if !fn(options.ClientID, sub) {
 						return false
@@ -111,6 +113,19 @@ func iterateShared(fn subscription.IterateFn, options subscription.IterationOpti
 	}
 	// 遍历
 	return trie.preOrderTraverse(fn)
+}
+
+// sharedIndexKey is the key of a shared subscription in sharedIndex: one entry per (group, topic filter).
+func sharedIndexKey(shareName, topicFilter string) string {
+	return shareName + "/" + topicFilter
+}
+
+// splitSharedIndexKey is the inverse of sharedIndexKey (a share name contains no "/").
+func splitSharedIndexKey(key string) (shareName, topicFilter string) {
+	if i := strings.Index(key, "/"); i >= 0 {
+		return key[:i], key[i+1:]
+	}
+	return "", key
 }
 
 func iterateNonShared(fn subscription.IterateFn, options subscription.IterationOptions, index map[string]map[string]*topicNode, trie *topicTrie) bool {
@@ -275,6 +290,8 @@ func (db *TrieDB) SubscribeLocked(clientID string, subscriptions ...*gmqtt.Subsc
 		if sub.ShareName != "" {
 			node = db.sharedTrie.subscribe(clientID, sub)
 			index = db.sharedIndex
+			// one index entry per (group, filter): the same client may join several groups on one filter
+			topicName = sharedIndexKey(sub.ShareName, sub.TopicFilter)
 		} else if isSystemTopic(topicName) {
 			node = db.systemTrie.subscribe(clientID, sub)
 			index = db.systemIndex
@@ -325,12 +342,16 @@ func (db *TrieDB) UnsubscribeLocked(clientID string, topics ...string) {
 			index = db.userIndex
 			topicTrie = db.userTrie
 		}
+		key := topic
+		if shareName != "" {
+			key = sharedIndexKey(shareName, topic)
+		}
 		if _, ok := index[clientID]; ok {
-			if _, ok := index[clientID][topic]; ok {
+			if _, ok := index[clientID][key]; ok {
 				db.stats.SubscriptionsCurrent--
 				db.clientStats[clientID].SubscriptionsCurrent--
 			}
-			delete(index[clientID], topic)
+			delete(index[clientID], key)
 		}
 		topicTrie.unsubscribe(clientID, topic, shareName)
 	}
@@ -350,8 +371,16 @@ func (db *TrieDB) unsubscribeAll(index map[string]map[string]*topicNode, clientI
 		db.clientStats[clientID].SubscriptionsCurrent -= uint64(len(index[clientID]))
 	}
 	for topicName, node := range index[clientID] {
+		// the client leaves the node altogether: its non-shared entry and its membership of every group
 		delete(node.clients, clientID)
-		if len(node.clients) == 0 && len(node.children) == 0 {
+		for shareName, c := range node.shared {
+			delete(c, clientID)
+			if len(c) == 0 {
+				delete(node.shared, shareName)
+			}
+		}
+		// prune the node only if nothing is left on it
+		if len(node.clients) == 0 && len(node.shared) == 0 && len(node.children) == 0 {
 			ss := strings.Split(topicName, "/")
 			delete(node.parent.children, ss[len(ss)-1])
 		}
